@@ -34,7 +34,7 @@ ASSUMPTIONS = [
     "plain-data (pod) reads are judged by byte closure: writing the pod value back must give the original bytes",
     "any exception counts as rejection of an out-of-limit value",
 ]
-MUST_REACH = {"size_queries_repeated": 5000, "programs": 300, "roundtrips": 2000, "classes_covered": 45, "ood_probes_rejected": 50,
+MUST_REACH = {"recursive_spec_values_with_children": 100, "size_queries_repeated": 5000, "programs": 300, "roundtrips": 2000, "classes_covered": 45, "ood_probes_rejected": 50,
               "greedy_programs": 30, "trailing_bytes_checks": 500, "fixed_size_checks": 300, "pod_closures": 1000}
 
 
@@ -204,7 +204,74 @@ def _check_program(ctx, pseed, depth, n_values=4):
             ctx.sample({"program_seed": pseed, "spec": desc, "greedy": greedy, "fixed_size": size})
 
 
+def recursive_specs(ctx, rng):
+    """Specs may refer to themselves (ForwardSerializable): a tree whose nodes are length-prefixed records holding a count-prefixed
+    list of child nodes.  Written by the framework, compared with an encoding computed by hand, read back - both byte orders,
+    both modes, with trailing bytes."""
+    import struct
+    shapes = []
+    for len_spec, fmt in ((se.U8, "B"), (se.U16, "H"), (se.U32, "I")):
+        def make(len_spec=len_spec, lazy=False):
+            node = se.TypedByteArray(len_spec, se.Template({"id": se.U8, "children": se.Collection(se.U8, se.ForwardSerializable(lambda: node))}),
+                                     lazy=lazy)
+            return node
+        shapes.append((make(), fmt, "typed-bytearray-" + fmt))
+    plain = se.Template({"id": se.U16, "children": se.Collection(se.U8, se.ForwardSerializable(lambda: plain))})
+    shapes.append((plain, None, "template"))
+
+    def tree(depth):
+        n = 0 if depth <= 0 else rng.choice([0, 1, 1, 2, 3])
+        return {"id": rng.randrange(256), "children": [tree(depth - 1) for _ in range(n)]}
+
+    def ref(node, fmt, endian):
+        if fmt is None:
+            body = struct.pack(endian + "H", node["id"]) + bytes([len(node["children"])])
+            return body + b"".join(ref(c, fmt, endian) for c in node["children"])
+        body = bytes([node["id"], len(node["children"])]) + b"".join(ref(c, fmt, endian) for c in node["children"])
+        return struct.pack(endian + fmt, len(body)) + body
+
+    for spec, fmt, label in shapes:
+        for k in range(ctx.pick(40, 400)):
+            v = tree(rng.choice([0, 1, 2, 3]))
+            if fmt == "B" and len(ref(v, fmt, "<")) > 200:
+                continue
+            for endian in ("<", ">"):
+                ctx.ev()
+                wit = {"recursive_spec": label, "endian": endian, "value": repr(v)[:300]}
+                want = ref(v, fmt, endian)
+                try:
+                    w = se.BufferWriter(endian)
+                    w.write(spec, v)
+                    data = w.copy_buffer()
+                except Exception as e:
+                    ctx.violation("recursive-spec:write-raises", "writing a value of a self-referential spec raised", dict(wit, exc=repr(e)[:200]))
+                    continue
+                if data != want:
+                    ctx.violation("recursive-spec:bytes-differ", "a self-referential spec wrote something else than its fields in "
+                                  "order", dict(wit, got=data[:80], want=want[:80]))
+                    continue
+                for pod in (False, True):
+                    for trail in (b"", b"\x07\x00"):
+                        try:
+                            r = se.BufferReader(endian, data + trail, pod=pod)
+                            out = r.read(spec)
+                            left = len(r)
+                        except Exception as e:
+                            ctx.violation("recursive-spec:read-raises", "reading back a value of a self-referential spec raised",
+                                          dict(wit, pod=pod, exc=repr(e)[:200]))
+                            break
+                        if gen_spec.canon(out) != gen_spec.canon(v) or left != len(trail):
+                            ctx.violation("recursive-spec:value-differs", "a value of a self-referential spec did not read back equal / "
+                                          "did not leave the trailing bytes", dict(wit, pod=pod, got=repr(gen_spec.canon(out))[:300], left=left))
+                            break
+                if v["children"]:
+                    ctx.count("recursive_spec_values_with_children")
+                ctx.nontrivial(("recursive", label, endian, repr(v)))
+
+
 def run(ctx):
+    if ctx.shard == 0:
+        recursive_specs(ctx, ctx.rng)
     depth = ctx.pick(3, 4)
     n_programs = ctx.pick(16000, 20000 * 16)
     base = ctx.seed * 10_000_000
